@@ -577,7 +577,10 @@ impl TDigestMut {
         };
         check_non_nan(min, "min")?;
         check_non_nan(max, "max")?;
-        let mut centroids = Vec::with_capacity(num_centroids);
+        // never reserve more than the remaining input can supply
+        let value_size = if is_f32 { 4 } else { 8 };
+        let mut centroids =
+            Vec::with_capacity(num_centroids.min(cursor.remaining() / (2 * value_size)));
         let mut centroids_weight = 0u64;
         for _ in 0..num_centroids {
             let (mean, weight) = if is_f32 {
@@ -594,10 +597,10 @@ impl TDigestMut {
             check_non_nan(mean, "centroid mean")?;
             check_finite(mean, "centroid")?;
             let weight = check_nonzero(weight, "centroid weight")?;
-            centroids_weight += weight.get();
+            centroids_weight = checked_total_weight(centroids_weight, weight)?;
             centroids.push(Centroid { mean, weight });
         }
-        let mut buffer = Vec::with_capacity(num_buffered);
+        let mut buffer = Vec::with_capacity(num_buffered.min(cursor.remaining() / value_size));
         for _ in 0..num_buffered {
             let value = if is_f32 {
                 cursor
@@ -652,14 +655,14 @@ impl TDigestMut {
                 let num_centroids =
                     cursor.read_u32_be().map_err(make_error("num_centroids"))? as usize;
                 let mut total_weight = 0u64;
-                let mut centroids = Vec::with_capacity(num_centroids);
+                let mut centroids = Vec::with_capacity(num_centroids.min(cursor.remaining() / 16));
                 for _ in 0..num_centroids {
                     let weight = cursor.read_f64_be().map_err(make_error("weight"))? as u64;
                     let mean = cursor.read_f64_be().map_err(make_error("mean"))?;
                     let weight = check_nonzero(weight, "centroid weight in compat double format")?;
                     check_non_nan(mean, "centroid mean in compat double format")?;
                     check_finite(mean, "centroid mean in compat double format")?;
-                    total_weight += weight.get();
+                    total_weight = checked_total_weight(total_weight, weight)?;
                     centroids.push(Centroid { mean, weight });
                 }
                 Ok(TDigestMut::make(
@@ -701,7 +704,7 @@ impl TDigestMut {
                     let weight = check_nonzero(weight, "centroid weight in compat float format")?;
                     check_non_nan(mean, "centroid mean in compat float format")?;
                     check_finite(mean, "centroid mean in compat float format")?;
-                    total_weight += weight.get();
+                    total_weight = checked_total_weight(total_weight, weight)?;
                     centroids.push(Centroid { mean, weight });
                 }
                 Ok(TDigestMut::make(
@@ -1313,6 +1316,12 @@ fn check_finite(value: f64, tag: &'static str) -> Result<(), Error> {
 fn check_nonzero(value: u64, tag: &'static str) -> Result<NonZeroU64, Error> {
     NonZeroU64::new(value)
         .ok_or_else(|| Error::deserial(format!("malformed data: {tag} cannot be zero")))
+}
+
+fn checked_total_weight(total: u64, weight: NonZeroU64) -> Result<u64, Error> {
+    total
+        .checked_add(weight.get())
+        .ok_or_else(|| Error::deserial("malformed data: total centroid weight overflows u64"))
 }
 
 /// Generates cluster sizes proportional to `q*(1-q)`.
